@@ -3716,25 +3716,25 @@ func nodeIdentityImmutable(c *Check, a *Anchors) {
 					n++
 					c.Fn(fb)
 					// the key names WHAT is stored: two different rewrites in one method are two findings
-				src := ""
-				for i, ll := range as.Lhs {
-					if ll == l && i < len(as.Rhs) {
-						r := ast.Unparen(as.Rhs[i])
-						if v := varOf(info, r); v != nil && !v.IsField() {
-							for _, d := range defsOf(info, fb.Body, v) {
-								if dc, ok := ast.Unparen(d).(*ast.CallExpr); ok {
-									src = calleeName(callee(info, dc))
+					src := ""
+					for i, ll := range as.Lhs {
+						if ll == l && i < len(as.Rhs) {
+							r := ast.Unparen(as.Rhs[i])
+							if v := varOf(info, r); v != nil && !v.IsField() {
+								for _, d := range defsOf(info, fb.Body, v) {
+									if dc, ok := ast.Unparen(d).(*ast.CallExpr); ok {
+										src = calleeName(callee(info, dc))
+									}
 								}
+								if src == "" {
+									src = v.Name()
+								}
+							} else {
+								src = exprStr(r)
 							}
-							if src == "" {
-								src = v.Name()
-							}
-						} else {
-							src = exprStr(r)
 						}
 					}
-				}
-				c.Bad("node-identity-immutable", sel.Sel.Name+"<-"+src+"@"+tn+"."+fb.Decl.Name.Name, as.Pos(),
+					c.Bad("node-identity-immutable", sel.Sel.Name+"<-"+src+"@"+tn+"."+fb.Decl.Name.Name, as.Pos(),
 						fmt.Sprintf("(*%s).%s assigns %s, which Location / CacheKey / ResolveEntrypoint of the node read: after a download the node names another location than before it, so relative includes resolve differently — and hit another cache key — online and offline", tn, fb.Decl.Name.Name, exprStr(sel)))
 				}
 				return true
@@ -4055,6 +4055,11 @@ func copyReturnsFresh(c *Check, a *Anchors, rule string) {
 		}
 		isCopy := fb.Pkg.PkgPath == PkgDeepcopy && fb.Decl.Name.IsExported() && fb.Decl.Name.Name != "TraverseStringsFunc"
 		if fb.Pkg.PkgPath == PkgAst && fb.Decl.Name.Name == "DeepCopy" && fb.Decl.Recv != nil {
+			isCopy = true
+		}
+		// the templater's Replace* functions are copies too: the task compiler hands their result on as the call's own
+		// variables / globs, which GetTask and the merge then write to (MATCH …)
+		if fb.Pkg.PkgPath == PkgTemplater && fb.Decl.Name.IsExported() && strings.HasPrefix(fb.Decl.Name.Name, "Replace") && fb.Decl.Recv == nil {
 			isCopy = true
 		}
 		if !isCopy {
